@@ -19,7 +19,7 @@ LEVEL_NOTE = "trusted: the reference ledger's weight calculator and sigop counte
 
 
 def runs(tier, seed):
-    return [cc.make_run("limits", tier, 48, 800, extra={"big": 1 if tier == "quick" else 2})]
+    return [cc.make_run("limits", tier, 32, 400, extra={"big": 1 if tier == "quick" else 2})]
 
 
 def check(rec, st):
